@@ -1,10 +1,142 @@
 (** C05 - Period and instant text forms round-trip and are canonical.  Only statements
-    here; proofs are in proofs/PeriodStrProofs.v. *)
+    here; proofs are in proofs/PeriodStrProofs.v.  Vocabulary ([claimed], [canon],
+    [join_colon], [colon_free], [rejected]) is in model/PeriodStrSpec.v; [show_period],
+    [show_instant], [parse_period], [parse_instant], [py_int] are the functions of
+    model/PeriodStr.v that the correspondence check runs against the implementation. *)
 From Coq Require Import ZArith List Bool String.
-From Verif Require Import Base Cal Tables Period PeriodStr PeriodStrProofs.
+From Verif Require Import Base Cal Tables Period PeriodStr PeriodStrSpec PeriodStrProofs.
+Import ListNotations.
+Open Scope string_scope.
 Open Scope Z_scope.
 
-Theorem eternity_roundtrip :
-  show_period eternity_period = Ok "ETERNITY"%string /\ parse_period "ETERNITY" = Ok eternity_period.
-Proof. exact eternity_roundtrip_lemma. Qed.
-Print Assumptions eternity_roundtrip.
+(** Every instant (real date, year 1..9999) prints as its ISO date, which parses back to it. *)
+Theorem instant_roundtrip : forall y m d, valid (y, m, d) -> y <= 9999 ->
+  show_instant (y, m, d) = Ok (iso_text y m d) /\ parse_instant (iso_text y m d) = Ok (y, m, d).
+Proof. exact instant_roundtrip_lemma. Qed.
+Print Assumptions instant_roundtrip.
+
+(** Every aligned period of positive size (any size, years 1000..9999, all six units) prints to
+    a text that parses to a period with the same first and last day, the same unit except
+    that twelve months come back as one year, and that prints to the same text again. *)
+Theorem period_roundtrip : forall p, claimed p ->
+  exists s q, show_period p = Ok s /\ parse_period s = Ok q /\ show_period q = Ok s /\
+    p_start q = p_start p /\ stop q = stop p /\ days q = days p /\
+    (if unit_eqb (p_unit p) Month && (p_size p =? 12) then p_unit q = Year /\ p_size q = 1 else q = p).
+Proof. exact period_roundtrip_lemma. Qed.
+Print Assumptions period_roundtrip.
+
+(** Two aligned periods of the same unit that differ in start or size never print alike. *)
+Theorem show_injective : forall p q, claimed p -> claimed q -> p_unit p = p_unit q ->
+  show_period p = show_period q -> p = q.
+Proof. exact show_injective_lemma. Qed.
+Print Assumptions show_injective.
+
+(** [int(str(n)) = n]: the size field, unbounded. *)
+Theorem size_roundtrip : forall n, py_int (show_Z n) = Some n.
+Proof. exact py_int_show_Z. Qed.
+Print Assumptions size_roundtrip.
+
+(** Rejection classes.  "rest" is any list of further ":"-separated fields. *)
+
+(* an impossible calendar date YYYY-MM-DD (any two-digit month and day), alone or as date field *)
+Theorem rejects_impossible_date : forall y m d, 0 <= y <= 9999 -> 0 <= m <= 99 -> 0 <= d <= 99 ->
+  validb (y, m, d) = false ->
+  rejected (iso_text y m d) /\
+  forall u rest, Forall colon_free (u :: rest) -> rejected (join_colon (u :: iso_text y m d :: rest)).
+Proof. exact rejects_impossible_date_lemma. Qed.
+Print Assumptions rejects_impossible_date.
+
+(* a week number beyond the last ISO week of the year: week 53 of a 52-week year *)
+Theorem rejects_week_beyond : forall y w, 0 <= y <= 9999 -> 1 <= w <= 53 -> weeks_in_iso_year y < w ->
+  let week := pad4 y ++ "-W" ++ pad2 w in
+  rejected week /\
+  (forall wd, 1 <= wd <= 7 -> rejected (week ++ "-" ++ show_Z wd)) /\
+  forall u rest, Forall colon_free (u :: rest) ->
+    rejected (join_colon (u :: week :: rest)) /\
+    forall wd, 1 <= wd <= 7 -> rejected (join_colon (u :: (week ++ "-" ++ show_Z wd) :: rest)).
+Proof. exact rejects_week_beyond_lemma. Qed.
+Print Assumptions rejects_week_beyond.
+
+(* a unit lighter (Tables.unit_weight, regenerated from the source) than the precision of the date *)
+Theorem rejects_finer_unit : forall u body rest q, Forall colon_free (body :: rest) ->
+  parse_simple body = Ok q -> unit_weight u < unit_weight (p_unit q) ->
+  rejected (join_colon (unit_name u :: body :: rest)).
+Proof. exact rejects_finer_unit_lemma. Qed.
+Print Assumptions rejects_finer_unit.
+
+(* a size that [int()] does not accept *)
+Theorem rejects_noninteger_size : forall u body sz, Forall colon_free [u; body; sz] ->
+  py_int sz = None -> rejected (join_colon [u; body; sz]).
+Proof. exact rejects_noninteger_size_lemma. Qed.
+Print Assumptions rejects_noninteger_size.
+
+(* a first field that is not one of weekday, week, day, month, year *)
+Theorem rejects_unknown_unit : forall u body rest, Forall colon_free (u :: body :: rest) ->
+  (forall v, v <> Eternity -> u <> unit_name v) -> rejected (join_colon (u :: body :: rest)).
+Proof. exact rejects_unknown_unit_lemma. Qed.
+Print Assumptions rejects_unknown_unit.
+
+(* four fields or more *)
+Theorem rejects_extra_fields : forall a b c d rest, Forall colon_free (a :: b :: c :: d :: rest) ->
+  rejected (join_colon (a :: b :: c :: d :: rest)).
+Proof. exact rejects_extra_fields_lemma. Qed.
+Print Assumptions rejects_extra_fields.
+
+(* an empty field anywhere in a text with at least one ":"; the empty text *)
+Theorem rejects_empty_field : forall u body rest, Forall colon_free (u :: body :: rest) ->
+  In "" (u :: body :: rest) -> rejected (join_colon (u :: body :: rest)).
+Proof. exact rejects_empty_field_lemma. Qed.
+Print Assumptions rejects_empty_field.
+
+Theorem rejects_empty_text : rejected "".
+Proof. exact rejects_empty_text_lemma. Qed.
+Print Assumptions rejects_empty_text.
+
+(** Non-vacuity: the hypotheses are satisfiable and the statements say something on concrete inputs. *)
+
+Example claimed_week53 : claimed (Week, (2020, 12, 28), 3).
+Proof. cbv. repeat split; discriminate. Qed.
+Example claimed_rolling_year : claimed (Month, (2014, 3, 1), 12).
+Proof. cbv. repeat split; discriminate. Qed.
+Example claimed_eternity : claimed eternity_period.
+Proof. reflexivity. Qed.
+Example claimed_leap_day_huge : claimed (Day, (2016, 2, 29), 10 ^ 30).
+Proof. cbv. repeat split; discriminate. Qed.
+
+Example ex_show_week53 : show_period (Week, (2020, 12, 28), 3) = Ok "week:2020-W53:3".
+Proof. vm_compute. reflexivity. Qed.
+Example ex_roundtrip_rolling_year :
+  show_period (Month, (2014, 3, 1), 12) = Ok "year:2014-03" /\
+  parse_period "year:2014-03" = Ok (Year, (2014, 3, 1), 1).
+Proof. split; vm_compute; reflexivity. Qed.
+Example ex_instant : show_instant (5, 2, 3) = Ok "0005-02-03" /\ parse_instant "0005-02-03" = Ok (5, 2, 3).
+Proof. split; vm_compute; reflexivity. Qed.
+(* outside the claim the round trip really fails: three-digit years are printed unpadded *)
+Example ex_year_999_not_claimed :
+  show_period (Year, (999, 1, 1), 1) = Ok "999" /\ parse_period "999" = Err EPeriod.
+Proof. split; vm_compute; reflexivity. Qed.
+
+Example ex_impossible_date : validb (2015, 2, 29) = false /\ iso_text 2015 2 29 = "2015-02-29".
+Proof. split; vm_compute; reflexivity. Qed.
+Example ex_week53_of_52 : weeks_in_iso_year 2014 < 53 /\ pad4 2014 ++ "-W" ++ pad2 53 = "2014-W53".
+Proof. split; vm_compute; reflexivity. Qed.
+Example ex_week53_of_53 : parse_period "2015-W53" = Ok (Week, (2015, 12, 28), 1).
+Proof. vm_compute. reflexivity. Qed.
+Example ex_finer_unit :
+  parse_simple "2014" = Ok (Year, (2014, 1, 1), 1) /\ unit_weight Month < unit_weight Year /\
+  join_colon [unit_name Month; "2014"] = "month:2014" /\ parse_period "month:2014" = Err EPeriod.
+Proof. repeat split; vm_compute; reflexivity. Qed.
+(* the engine's own ordering: a week-unit prefix on a month date is accepted (scope of C05) *)
+Example ex_week_of_month_accepted : parse_period "week:2014-01" = Ok (Week, (2014, 1, 1), 1).
+Proof. vm_compute. reflexivity. Qed.
+Example ex_noninteger_size : py_int "1.5" = None /\ py_int "" = None /\ py_int "1__0" = None /\
+  py_int " +1_0 " = Some 10 /\ py_int "-3" = Some (-3).
+Proof. repeat split; vm_compute; reflexivity. Qed.
+Example ex_unknown_unit : (forall v, v <> Eternity -> "years" <> unit_name v) /\
+  parse_period "years:2014" = Err EPeriod.
+Proof. split; [intros []; intros; discriminate || congruence|vm_compute; reflexivity]. Qed.
+Example ex_extra_fields : join_colon ["year"; "2014"; "3"; "4"] = "year:2014:3:4" /\
+  parse_period "year:2014:3:4" = Err EPeriod.
+Proof. split; vm_compute; reflexivity. Qed.
+Example ex_empty_field : parse_period "year:2014:" = Err EPeriod /\ parse_period ":2014" = Err EPeriod.
+Proof. split; vm_compute; reflexivity. Qed.
